@@ -1,7 +1,8 @@
 (* Guess.v — model of main.rs guess_audit_criteria, the criteria `certify` (and the diff / inspect prompt) pre-selects
    when the user names none: what compute_suggested_criteria finds on the store as it is or, when that is nothing, on the
    store cloned for `suggest` (Store::clone_for_suggest(true): every exemption not marked `suggest = false` dropped; with
-   live imports also every unpublished link that is not fresh). *)
+   live imports also every unpublished link that is not fresh).  Whether the second look is given the delta's <from> like the
+   first — rather than asking about a full audit of <to> — is re-read from the source (Extracted.GUESS_SECOND_LOOK_USES_FROM). *)
 Require Import Base Extracted Criteria Search AuditGraph DepGraph Resolve Suggest.
 Local Open Scope N_scope.
 
@@ -16,7 +17,9 @@ Definition store_for_suggest (live : bool) (s : store) : store :=
 
 Definition guess_audit_criteria (inp : depgraph_in) (live : bool) (s : store) (name : N) (from : ver) (to : N) : cset :=
   let c1 := suggested_criteria (resolve inp s) name from to in
-  if cs_is_empty c1 then suggested_criteria (resolve inp (store_for_suggest live s)) name from to else c1.
+  if cs_is_empty c1
+  then suggested_criteria (resolve inp (store_for_suggest live s)) name (if GUESS_SECOND_LOOK_USES_FROM then from else None) to
+  else c1.
 
 (* what the names cargo-vet prints / records for a set mean *)
 Definition cs_meaning (t : ctable) (s : cset) : cset := from_list t (cs_indices (ct_len t) s).
